@@ -503,4 +503,46 @@ def effective (t : Transport) (r : Resolved) (v : SshConfigView) : Except ParseE
   else .ok { host := r.bta.host, port := natStr r.bta.port,
              user := r.plugin.str .auth_username, key := r.plugin.str .auth_private_key }
 
+/-! ### several drivers in one process
+
+  `ssh_config_factory` (ssh_config.py:504-533) keeps one parsed `SSHConfig` per path for the whole
+  process (`SSHConfig._config_files`); `lookup` hands out the `Host` objects that live in it.  The
+  constructor only *reads* them.  `Cache` is that process-wide state, at the granularity the constructor
+  sees it: the entry object handed out for (config path, host). -/
+
+abbrev Cache := List ((Str × Str) × HostCfg)
+
+def Cache.get (c : Cache) (p h : Str) : Option HostCfg :=
+  match c.find? (fun e => e.1 == (p, h)) with
+  | some e => some e.2
+  | none => none
+
+/-- what `ssh_config_factory(path).lookup(host)` returns in a process whose cache is `c`: the cached object
+    if there is one, else the entry parsed from the file now -/
+def cachedLookup (c : Cache) (host : Str) (v : SshConfigView) (p : Str) : HostCfg :=
+  match c.get p host with
+  | some e => e
+  | none => v.lookup p
+
+def cachedView (c : Cache) (host : Str) (v : SshConfigView) : SshConfigView :=
+  { home := v.home, isFile := v.isFile, lookup := cachedLookup c host v, sshDefault := v.sshDefault }
+
+/-- constructing one driver in a process with cache `c`: the constructor runs against the cached
+    view; a library ssh transport's `ssh_config_factory` call leaves the parsed entry in the cache (only if
+    none was there — a cached config is never parsed again), and nothing is ever written into an entry -/
+def step (fx : Fixes) (c : Cache) (a : Args) (v : SshConfigView) : Cache × Except Err Resolved :=
+  let r := resolve fx a (cachedView c (strip a.host) v)
+  let c' := match r with
+    | .ok res =>
+      if consultsCfg a.transport && (c.get res.reported.cfgFile (strip a.host)).isNone
+      then ((res.reported.cfgFile, strip a.host), v.lookup res.reported.cfgFile) :: c
+      else c
+    | .error _ => c
+  (c', r)
+
+/-- a history of constructions in one process -/
+def runHistory (fx : Fixes) : Cache → List (Args × SshConfigView) → List (Except Err Resolved)
+  | _, [] => []
+  | c, (a, v) :: rest => (step fx c a v).2 :: runHistory fx (step fx c a v).1 rest
+
 end Scrapli.Resolve
